@@ -47,6 +47,10 @@ def corrupt(vc, bits, start, width, order=None):
     out = bits.copy()
     n = len(bits)
     order = order or list(range(n))
+    if isinstance(start, (list, tuple)):  # scattered errors: the literal codeword positions listed (weight 2 and 3)
+        for pos in start:
+            out.invert(order[pos])
+        return out
     if width == 1:
         out.invert(order[start])
         return out
@@ -87,6 +91,21 @@ def header_detect(vc, kind, start, width):
         vc.prove(name, True)
 
 
+def _scattered(n, tier, seed, all_pairs_quick=False):
+    """weight-2 and weight-3 patterns: CRC-CCITT (x+1 factor, period 32767) and the CRC-8 x^8+x^2+x+1 (x+1 factor, period 127)
+    guarantee their detection at these lengths; the CRC-9 polynomial has no x+1 factor - not claimed there"""
+    import itertools, random
+
+    r = random.Random(seed)
+    pairs = list(itertools.combinations(range(n), 2))
+    if tier != "thorough" and not all_pairs_quick:
+        pairs = r.sample(pairs, 40)
+    triples = [sorted(r.sample(range(n), 3)) for _ in range(2000 if tier == "thorough" else 40)] if n > 40 else list(itertools.combinations(range(n), 3))
+    if n <= 40 and tier != "thorough":
+        triples = r.sample(triples, 200)
+    return [list(x) for x in pairs] + [list(x) for x in triples]
+
+
 def _detect_shapes(kinds, n, w, tier):
     for k in kinds:
         for s in range(n):
@@ -96,7 +115,7 @@ def _detect_shapes(kinds, n, w, tier):
             yield dict(kind=k, start=s, width=w)
 
 
-header_detect.shapes = lambda tier: list(_detect_shapes(DH_KINDS, 96, 16, tier))
+header_detect.shapes = lambda tier: list(_detect_shapes(DH_KINDS, 96, 16, tier)) + [dict(kind=k, start=e, width=0) for i, k in enumerate(DH_KINDS) for e in _scattered(96, tier, 40 + i)]
 header_detect.cost = 5
 
 
@@ -111,7 +130,7 @@ def pi_detect(vc, kind, start, width):
         vc.prove("corrupted_header_rejected_flagged_or_unchanged", True)
 
 
-pi_detect.shapes = lambda tier: list(_detect_shapes(("pi",), 96, 16, tier))
+pi_detect.shapes = lambda tier: list(_detect_shapes(("pi",), 96, 16, tier)) + [dict(kind="pi", start=e, width=0) for e in _scattered(96, tier, 39)]
 
 
 @contract("ShortLinkControl.indicator", "okdmr.dmrlib.etsi.layer2.pdu.short_link_control:ShortLinkControl.from_bits", ["C04"], stubs=CRCSTUB)
@@ -158,7 +177,7 @@ def slc_detect(vc, kind, start, width):
         vc.prove(name, True)
 
 
-slc_detect.shapes = lambda tier: list(_detect_shapes(("au",), 36, 8, "thorough"))
+slc_detect.shapes = lambda tier: list(_detect_shapes(("au",), 36, 8, "thorough")) + [dict(kind="au", start=e, width=0) for e in _scattered(36, tier, 38, all_pairs_quick=True)]
 
 
 @contract("RateData.detects_corruption", "okdmr.dmrlib.etsi.layer2.pdu.rate12_data:Rate12Data.from_bits_typed", ["C04"], stubs=CRCSTUB,
